@@ -34,3 +34,10 @@ pub fn vx_vec_sort<T: VxSortOrd>(v: &mut Vec<T>)
         permuted(old(v)@, final(v)@, sort_perm(old(v)@, final(v)@)),
         sorted_by_ord(final(v)@),
 { unimplemented!() }
+
+/// R-method-map target of `v.sort_by_key(f)`: a permutation (the order by key is not modelled)
+#[verifier::external_body]
+pub fn vx_vec_sort_by_key<T, K, F: Fn(&T) -> K>(v: &mut Vec<T>, f: F)
+    requires forall|i: int| 0 <= i < old(v)@.len() ==> call_requires(f, (&#[trigger] old(v)@[i],))
+    ensures permuted(old(v)@, final(v)@, sort_perm(old(v)@, final(v)@))
+{ unimplemented!() }
